@@ -1,6 +1,7 @@
 package main
 
 import (
+	"strings"
 	"fmt"
 	"go/ast"
 	"go/token"
@@ -131,7 +132,7 @@ func (fc *FCtx) execStmt(s ast.Stmt, st *State, label string) *Flow {
 	case *ast.GoStmt:
 		return fc.execGo(s, st)
 	case *ast.TypeSwitchStmt:
-		oos("type switch")
+		return fc.execTypeSwitch(s, st)
 	case *ast.SelectStmt:
 		oos("select")
 	case *ast.SendStmt:
@@ -271,7 +272,18 @@ func (fc *FCtx) execAssign(s *ast.AssignStmt, st *State) {
 		return
 	}
 	var vals []Val
-	if len(s.Rhs) == 1 && len(s.Lhs) > 1 {
+	if len(s.Rhs) == 1 && len(s.Lhs) == 2 {
+		switch r := unparen(s.Rhs[0]).(type) {
+		case *ast.TypeAssertExpr:
+			vals = fc.evalTypeAssert(r, st, true)
+		case *ast.IndexExpr:
+			if _, isMap := fc.info().TypeOf(r.X).Underlying().(*types.Map); isMap {
+				vals = fc.evalIndex(r, st, true)
+			}
+		}
+	}
+	if vals != nil {
+	} else if len(s.Rhs) == 1 && len(s.Lhs) > 1 {
 		vals = fc.evalMulti(s.Rhs[0], st)
 		if len(vals) != len(s.Lhs) {
 			oos("assignment arity mismatch")
@@ -300,7 +312,7 @@ func (fc *FCtx) execAssign(s *ast.AssignStmt, st *State) {
 // coerce adjusts a value to a static type (mostly a no-op; sets GoT).
 func (fc *FCtx) coerce(v Val, t types.Type) Val {
 	s := fc.U.SortOf(t)
-	if v.S != nil && (v.S.Name == "Bz" || v.S.Name == "StoreH") {
+	if v.S != nil && (v.S.Name == "StoreH" || strings.HasPrefix(v.T, "@writefn:")) {
 		v.GoT = t
 		return v
 	}
@@ -309,8 +321,10 @@ func (fc *FCtx) coerce(v Val, t types.Type) Val {
 			// nil literal
 			return fc.zeroVal(t)
 		}
+		if s.Kind == KOpaque && v.S != nil && v.GoT != nil {
+			return fc.box(v, s, t)
+		}
 		if s.Kind == KOpaque {
-			// interface boxing: an opaque value
 			return Val{T: fc.U.Fresh("box", s), S: s, GoT: t}
 		}
 		oos("sort mismatch %s vs %s", v.S.Name, s.Name)
@@ -361,6 +375,12 @@ func (fc *FCtx) assignTo(l ast.Expr, v Val, st *State) {
 		case KMap:
 			nb := Val{T: app("mk_"+base.S.Name, fmt.Sprintf("(store %s %s true)", mpDom(base), idx.T), fmt.Sprintf("(store %s %s %s)", mpVal(base), idx.T, v.T)), S: base.S, GoT: base.GoT}
 			fc.assignTo(l.X, nb, st)
+		case KOpaque:
+			if !isBz(base.S) {
+				oos("index assignment on %s", base.S.Name)
+			}
+			fc.panicCheck(st, "index", fmt.Sprintf("(and (<= 0 %s) (< %s (bz_len %s)))", idx.T, idx.T, base.T), l.Pos())
+			fc.assignTo(l.X, Val{T: fmt.Sprintf("(bz_upd %s %s %s)", base.T, idx.T, v.T), S: base.S, GoT: base.GoT}, st)
 		default:
 			oos("index assignment on %s", base.S.Name)
 		}
@@ -655,7 +675,10 @@ func (fc *FCtx) execRange(s *ast.RangeStmt, st *State, label string) *Flow {
 	case KMap:
 		return fc.execRangeMap(s, st, label, coll, ord)
 	default:
-		oos("range over %s", coll.S.Name)
+		if !isBz(coll.S) {
+			oos("range over %s", coll.S.Name)
+		}
+		n = fmt.Sprintf("(bz_len %s)", coll.T)
 	}
 	// freeze the collection (Go evaluates the range expression once)
 	fz := fc.U.Fresh("rng", coll.S)
@@ -663,6 +686,8 @@ func (fc *FCtx) execRange(s *ast.RangeStmt, st *State, label string) *Flow {
 	coll.T = fz
 	if coll.S.Kind == KSlice {
 		n = slLen(coll)
+	} else if isBz(coll.S) {
+		n = fmt.Sprintf("(bz_len %s)", coll.T)
 	}
 	sp0 := loopSpecials{"#i": Val{T: "0", S: SInt}, "#n": Val{T: n, S: SInt}, "#coll": coll}
 	fc.checkInvs("inv-establish", ord, ls, st, sp0, bodyPos)
@@ -694,6 +719,9 @@ func (fc *FCtx) execRange(s *ast.RangeStmt, st *State, label string) *Flow {
 	}
 	intT := types.Typ[types.Int]
 	bind(s.Key, Val{T: gi, S: SInt, GoT: intT})
+	if s.Value != nil && isBz(coll.S) {
+		bind(s.Value, Val{T: fmt.Sprintf("(bz_at %s %s)", coll.T, gi), S: SInt, GoT: types.Typ[types.Uint8]})
+	}
 	if s.Value != nil && coll.S.Kind == KSlice {
 		et := elemType(coll.GoT)
 		ev := Val{T: fmt.Sprintf("(select %s %s)", slEl(coll), gi), S: coll.S.Elem, GoT: et}
@@ -753,8 +781,29 @@ func (fc *FCtx) execDefer(s *ast.DeferStmt, st *State) *Flow {
 		fc.drop("defer " + name)
 		return single(st)
 	}
+	if lit, ok := s.Call.Fun.(*ast.FuncLit); ok && containsRecover(lit.Body) {
+		if len(fc.frames) != 1 || fc.recoverLit != nil {
+			oos("defer-recover in an inlined function")
+		}
+		fc.recoverLit = lit
+		fc.mayPanic = true // panics do not escape: no panic-free obligations; the panic exit is modelled in run()
+		return single(st)
+	}
 	oos("defer %s", name)
 	return nil
+}
+
+func containsRecover(n ast.Node) bool {
+	found := false
+	ast.Inspect(n, func(x ast.Node) bool {
+		if c, ok := x.(*ast.CallExpr); ok {
+			if id, ok := c.Fun.(*ast.Ident); ok && id.Name == "recover" {
+				found = true
+			}
+		}
+		return !found
+	})
+	return found
 }
 
 func (fc *FCtx) execGo(s *ast.GoStmt, st *State) *Flow {
@@ -774,4 +823,140 @@ func (fc *FCtx) drop(what string) {
 		}
 	}
 	fc.dropped = append(fc.dropped, what)
+}
+
+// ---------------------------------------------------------------------------------------------
+// Interfaces: dynamic type tags, boxing, type switches and assertions
+// ---------------------------------------------------------------------------------------------
+
+func (fc *FCtx) typeTagID(t types.Type) int {
+	key := typeString(t)
+	if id, ok := fc.E.typeTags[key]; ok {
+		return id
+	}
+	id := len(fc.E.typeTags) + 1
+	fc.E.typeTags[key] = id
+	return id
+}
+
+func (fc *FCtx) tagFn(is *Sort) string {
+	n := "typetag_" + sanitize(is.Name)
+	fc.U.Fun(n, []*Sort{is}, SInt)
+	return n
+}
+
+func (fc *FCtx) unboxFn(cs, is *Sort) string {
+	n := "unbox_" + sanitize(cs.Name) + "_" + sanitize(is.Name)
+	fc.U.Fun(n, []*Sort{is}, cs)
+	return n
+}
+
+func (fc *FCtx) box(v Val, is *Sort, it types.Type) Val {
+	id := fc.typeTagID(v.GoT)
+	n := fmt.Sprintf("box%d_%s_%s", id, sanitize(v.S.Name), sanitize(is.Name))
+	if !fc.U.declared["f:"+n] {
+		fc.U.Fun(n, []*Sort{v.S}, is)
+		tag := fc.tagFn(is)
+		ub := fc.unboxFn(v.S, is)
+		if v.S.Name == "(Array Bz Bz)" {
+			oos("boxing a store")
+		}
+		fc.U.Axiom("interface boxing round trip ("+v.S.Name+")", fmt.Sprintf("(forall ((x %s)) (! (and (= (%s (%s x)) x) (= (%s (%s x)) %d)) :pattern ((%s x))))", v.S.Name, ub, n, tag, n, id, n))
+	}
+	r := Val{T: app(n, v.T), S: is, GoT: it}
+	return r
+}
+
+// boxTagFact: the dynamic type of a boxed concrete value.
+func (fc *FCtx) dynTypeIs(x Val, t types.Type) string {
+	return fmt.Sprintf("(= (%s %s) %d)", fc.tagFn(x.S), x.T, fc.typeTagID(t))
+}
+
+func (fc *FCtx) evalTypeAssert(e *ast.TypeAssertExpr, st *State, commaOk bool) []Val {
+	x := fc.eval(e.X, st)
+	if x.S.Kind != KOpaque {
+		oos("type assertion on %s", x.S.Name)
+	}
+	t := fc.info().TypeOf(e.Type)
+	cs := fc.U.SortOf(t)
+	ok := fc.dynTypeIs(x, t)
+	v := Val{T: app(fc.unboxFn(cs, x.S), x.T), S: cs, GoT: t}
+	st.assume(implies(ok, fc.U.WF(v)))
+	if commaOk {
+		return []Val{v, {T: ok, S: SBool, GoT: types.Typ[types.Bool]}}
+	}
+	fc.panicCheck(st, "type-assertion", ok, e.Pos())
+	return []Val{v}
+}
+
+func (fc *FCtx) execTypeSwitch(s *ast.TypeSwitchStmt, st *State) *Flow {
+	out := newFlow()
+	if s.Init != nil {
+		f := fc.execStmt(s.Init, st, "")
+		st = fc.merge(f.normal)
+		if st == nil {
+			return out
+		}
+	}
+	var xe ast.Expr
+	switch a := s.Assign.(type) {
+	case *ast.AssignStmt:
+		xe = a.Rhs[0].(*ast.TypeAssertExpr).X
+	case *ast.ExprStmt:
+		xe = a.X.(*ast.TypeAssertExpr).X
+	}
+	x := fc.eval(xe, st)
+	if x.S.Kind != KOpaque {
+		oos("type switch on %s", x.S.Name)
+	}
+	cur := st
+	var deflt *ast.CaseClause
+	for _, c := range s.Body.List {
+		cc := c.(*ast.CaseClause)
+		if cc.List == nil {
+			deflt = cc
+			continue
+		}
+		var conds []string
+		var single types.Type
+		for _, te := range cc.List {
+			if id, ok := te.(*ast.Ident); ok && id.Name == "nil" {
+				fn := "isnil_" + x.S.Name
+				fc.U.Fun(fn, []*Sort{x.S}, SBool)
+				conds = append(conds, app(fn, x.T))
+				continue
+			}
+			t := fc.info().TypeOf(te)
+			conds = append(conds, fc.dynTypeIs(x, t))
+			if len(cc.List) == 1 {
+				single = t
+			}
+		}
+		cond := or(conds...)
+		b := cur.clone()
+		b.assume(cond)
+		if obj := fc.info().Implicits[cc]; obj != nil {
+			if single != nil {
+				cs := fc.U.SortOf(single)
+				v := Val{T: app(fc.unboxFn(cs, x.S), x.T), S: cs, GoT: single}
+				b.assume(fc.U.WF(v))
+				b.vars[obj] = v
+			} else {
+				b.vars[obj] = x
+			}
+		}
+		fb := fc.execBlock(cc.Body, b)
+		fc.switchAbsorb(out, fb)
+		cur.assume(not(cond))
+	}
+	if deflt != nil {
+		if obj := fc.info().Implicits[deflt]; obj != nil {
+			cur.vars[obj] = x
+		}
+		fb := fc.execBlock(deflt.Body, cur)
+		fc.switchAbsorb(out, fb)
+	} else {
+		out.normal = append(out.normal, cur)
+	}
+	return out
 }
